@@ -92,7 +92,7 @@ class Config:
         self.pw = 8 * self.W
         if k == "serializer":
             n = rng.choice([1, 2, 2, 3, 4, 5, 7, 8, 9, 12, 16, rng.randint(1, 24)])
-            self.pw = rng.choice([8, 8, 8, 8, 16, 32])
+            self.pw = rng.choice([8, 8, 8, 16, 16, 32, 32])
             self.items = [rng.randrange(1 << self.pw) for _ in range(n)]
             self.bpw = 1                      # the serializer counts words
         elif k == "ints":
@@ -279,6 +279,11 @@ def run_case(rng, tier, res):
             b = Bench(with_bystander(dut), domain=cfg.domain, freq=60e6, clocks={"sync": cfg.sync_freq}, max_cycles=40000)
     except icontract.ViolationError as e:
         res.violation("initializer_roundtrip_wrong", "config=%s: %s" % (cfg.describe(), str(e)[:300]))
+        return
+    except NameError as e:
+        if "is not present in simulation" not in str(e):
+            raise
+        res.violation("generator_not_in_requested_clock_domain", "config=%s: %s" % (cfg.describe(), e))
         return
     except AttributeError as e:
         if cfg.mlw is None and cfg.kind != "serializer":
